@@ -158,6 +158,28 @@ def planeCrystalToCartesianUnnorm [Zero K] [Add K] [Sub K] [Mul K] [Neg K] [IntC
   | [h, k, l] => planeNormalUnnorm V h k l
   | _ => .error .value
 
+/-- `np.asarray(x, dtype=int)` on a float: truncation toward zero. -/
+def truncRat (q : Rat) : Int := Int.tdiv q.num (q.den : Int)
+
+/-- one entry of `np.allclose(indices, np.asarray(indices, dtype=int))` (numpy defaults `rtol`, `atol`):
+    `|x - trunc x| ≤ atol + rtol·|trunc x|`. -/
+def isIntLike (rtol atol q : Rat) : Bool :=
+  decide (absK (q - (truncRat q : Rat)) ≤ atol + rtol * absK ((truncRat q : Int) : Rat))
+
+/-- `plane_crystal_to_cartesian` for ONE index set given as numbers (what an array row holds): the integer test, then
+    the integer routine on the truncated values. -/
+def planeRow (rtol atol gatol : Rat) (isHex : Bool) (V : M3 Rat) (r : List Rat) : Except Err (V3 Rat) :=
+  if r.all (isIntLike rtol atol) then planeCrystalToCartesianUnnorm gatol isHex V (r.map truncRat) else .error .value
+
+/-- `plane_crystal_to_cartesian` on an ARRAY of index sets (leading shape flattened).  The code applies its tests to
+    the whole array (`allclose` of the sums, `allclose` against the integer cast) and then works row by row
+    (`apply_along_axis`, the zero row raises there); every failure is a `ValueError`, so the array is accepted iff
+    every row is, and then holds the row results (`planeArr_ok_iff`, `planeArr_rows`). -/
+def planeArr (rtol atol gatol : Rat) (isHex : Bool) (V : M3 Rat) (rows : List (List Rat)) : Except Err (List (V3 Rat)) :=
+  if rows.all (fun r => (planeRow rtol atol gatol isHex V r).toBool) then
+    .ok (rows.filterMap fun r => match planeRow rtol atol gatol isHex V r with | .ok n => some n | .error _ => none)
+  else .error .value
+
 /-- final step `planenormal / np.linalg.norm(planenormal)`; `nrm` is the norm (external sqrt). -/
 @[inline] def normalise [Div K] (n : V3 K) (nrm : K) : V3 K := ⟨n.x / nrm, n.y / nrm, n.z / nrm⟩
 
@@ -296,7 +318,8 @@ def fracOf (P : List Char) : Except Err Rat :=
       | _, _ =>
         -- `float(term)`: a character that no Python float literal contains gives ValueError;
         -- anything else is outside the modelled (integer) numeral grammar
-        if (p ++ q).all floatChar then .error .format else .error .value
+        if (trimSpaces p).isEmpty || (trimSpaces q).isEmpty then .error .value      -- float('') raises ValueError
+        else if (p ++ q).all floatChar then .error .format else .error .value
     | _ => .error .assert               -- 'fraction can only have one /'
   else .ok 1
 
